@@ -206,17 +206,24 @@ class E1:
             return
         live = [e for e in snap if e is not x and not e.cancelled]
         tie = False
+
+        def prio_of(ev):
+            # the priority the harness asked for, not what the Event object stores; TERMINATE events have no record
+            rec = getattr(ev.action, 'rec', None)
+            return rec.prio if rec is not None else ev.event_type
+        px = prio_of(x)
         for e in live:
             if e.time < x.time:
                 self.bad('C01.head-min', f'dispatched event at time {x.time} while a live event due at {e.time} '
                          f'was pending')
             if e.time == x.time:
-                if e.event_type > x.event_type:
-                    self.bad('C01.head-min', f'at time {x.time} dispatched priority {float(x.event_type)} before '
-                             f'pending priority {float(e.event_type)}')
-                if e.event_type != x.event_type:
+                pe = prio_of(e)
+                if pe > px:
+                    self.bad('C01.head-min', f'at time {x.time} dispatched priority {float(px)} before '
+                             f'pending priority {float(pe)}')
+                if pe != px:
                     tie = True
-                    if float(e.event_type) != int(e.event_type) or float(x.event_type) != int(x.event_type):
+                    if float(pe) != int(pe) or float(px) != int(px):
                         self.c['frac_ties'] += 1
                     rx, re_ = getattr(x.action, 'rec', None), getattr(e.action, 'rec', None)
                     if rx is not None and re_ is not None and rx.was_paused != re_.was_paused:
